@@ -115,10 +115,14 @@ func (c *Authority) VerifyPartialCert(cert hotstuff.PartialCert) error {
 
 // VerifyQuorumCert verifies a quorum certificate.
 func (c *Authority) VerifyQuorumCert(qc hotstuff.QuorumCert) error {
-	// the genesis QC is always valid, but only for the view of the genesis block.
+	// the genesis QC is always valid, but only for the view of the genesis block and without a
+	// signature: nobody signs the genesis block, and a signature listed here would never be verified.
 	if qc.BlockHash() == hotstuff.GetGenesis().Hash() {
 		if qc.View() != hotstuff.GetGenesis().View() {
 			return fmt.Errorf("quorum certificate for the genesis block has view %d", qc.View())
+		}
+		if qc.HasSignature() {
+			return fmt.Errorf("quorum certificate for the genesis block carries a signature")
 		}
 		return nil
 	}
